@@ -186,6 +186,29 @@ func vC11Attribute(in, norm []byte) (string, string) {
 			return "KF-C11-2", fmt.Sprintf("%d differing token(s), all on lines whose cleaned text reads as a notice/date line or ends in a hyphen", len(da))
 		}
 	}
+	// KF-C11-3 (the C11 face of KF-C02-1): a hyphen-ended line followed by a
+	// whitespace-only line. Every differing original token lies on such a line or on
+	// one of the two lines after it.
+	{
+		raw := strings.Split(string(in), "\n")
+		near := map[int]bool{}
+		for i := 0; i+1 < len(raw); i++ {
+			if vEndsHyphen(raw[i]) && strings.TrimSpace(raw[i+1]) == "" {
+				near[i+1], near[i+2], near[i+3] = true, true, true
+			}
+		}
+		if len(near) > 0 && len(da) > 0 {
+			all := true
+			for _, i := range da {
+				if !near[la[i]] {
+					all = false
+				}
+			}
+			if all {
+				return "KF-C11-3", fmt.Sprintf("%d differing token(s), all next to a hyphen-ended line that is followed by a blank line", len(da))
+			}
+		}
+	}
 	first := ""
 	if len(da) > 0 {
 		first = fmt.Sprintf("original token %q@line%d", wa[da[0]], la[da[0]])
@@ -229,7 +252,7 @@ func TestVerifC11(t *testing.T) {
 	for k, n := 0, e.pick(120, 3000); k < n; k++ {
 		cases = append(cases, cdesc{"crafted-layout", rr.Intn(len(docs)), k})
 	}
-	cases = append(cases, cdesc{"kf-witness", 0, 1}, cdesc{"kf-witness", 0, 2}, cdesc{"kf-witness", 0, 3})
+	cases = append(cases, cdesc{"kf-witness", 0, 1}, cdesc{"kf-witness", 0, 2}, cdesc{"kf-witness", 0, 3}, cdesc{"kf-witness", 0, 4})
 
 	for idx, cd := range cases {
 		cd := cd
@@ -282,6 +305,8 @@ func TestVerifC11(t *testing.T) {
 					text = strings.Replace(text, "Permission is hereby granted", "Permission (see http://source.android.com/) is hereby granted", 1)
 				case 2: // KF-C11-2: colon defeats the notice regexp, cleaning removes it
 					text = "zqxxqqzz zqkkvvjj\n" + strings.Replace(vWithNL(string(vFindDoc(docs, "License/MIT/pristine.txt"))), "Permission is hereby granted", "Copyright: 2020 Example\nPermission is hereby granted", 1)
+				case 4: // KF-C11-3: a hyphen-ended line followed by a blank line
+					text = "zqxxqqzz zqkkvvjj\n" + strings.Replace(vWithNL(string(vFindDoc(docs, "License/MIT/pristine.txt"))), "Permission is hereby granted", "Permission is hereby\n26-\n\nb. granted", 1)
 				case 3: // KF-C11-2: a line ending in "3-Clause" is cleaned to "3-"
 					text = "zqxxqqzz zqkkvvjj\n" + strings.Replace(vWithNL(string(vFindDoc(docs, "License/MIT/pristine.txt"))), "Permission is hereby granted", "Permission is hereby 3-Clause\ngranted", 1)
 				}
@@ -315,7 +340,7 @@ func TestVerifC11(t *testing.T) {
 			cs.addInput("normalized", norm)
 			kf, why := vC11Attribute(in, norm)
 			det := fmt.Sprintf("%s: structural: %s; Match(in)=%s; Match(Normalize(in))=%s; %s", cs.params["name"], structural, vFmt(r0), vFmt(r1), why)
-			if kf != "" && (structural == "" || kf == "KF-C11-2") {
+			if kf != "" && (structural == "" || kf == "KF-C11-2" || kf == "KF-C11-3") {
 				cs.knownFinding(kf, "normalize-invariant", "%s", det)
 				cs.nontrivial(in)
 				return
